@@ -302,6 +302,18 @@ pub fn run(run: &mut Run) -> Finish {
             l.case(true, h64(&(m.file.is_some(), m.debug_id.is_some(), m.ignore.len(), k % 9)));
         }
     });
+    let ndup = dup_count();
+    run.par_slice("D: sources [same, same], names [same, same]: every multiset of <= 3 tokens that differ only in the source / name index, raw constructor and decoded", 8, ndup * 2, |idx, l| {
+        let k = idx & ((1 << 40) - 1);
+        let m = dup_map(k / 2);
+        let (v, ran) = check_regular(&m, [0usize, 2][(k % 2) as usize], false);
+        for x in v {
+            l.violation(idx, x);
+        }
+        if ran {
+            l.case(!m.tokens.is_empty(), h64(&("D", m.tokens.len(), k % 2)));
+        }
+    });
     let ng = long_count();
     run.par_slice("G: long maps of 15..1000 tokens, three constructions, with derived maps", 7, ng * 3, |idx, l| {
         let k = idx & ((1 << 40) - 1);
